@@ -333,6 +333,7 @@ fn run_case(ctx: &mut Ctx, case: &Value) -> Value {
         "view_ctor" => misc::view_ctor(case, &mut out),
         "img_ctor" => misc::img_ctor(case, &mut out),
         "split" => misc::split(case, &mut out),
+        "rows" => misc::rows(case, &mut out),
         "fitcrop" => misc::fitcrop(case, &mut out),
         "coeffs" => misc::coeffs(case, &mut out),
         "alpha_table" => misc::alpha_table(ctx, case, &mut out),
